@@ -6,8 +6,8 @@ from replay import replay_validate
 SVC_INVS = "TypeOK AccountedOnce Drained NilWhenWaiting NoServeAfterShutdown TimeoutOnlyIdle EndpointReleased RegistrationOrder NoDupNames"
 
 
-def svc_mc_cfg(clients="{k1, k2}", ifaces="{}", rounds=1, timeouts=2, binds=2, dev="{}", props=True, norace=True):
-    return """SPECIFICATION Spec
+def svc_mc_cfg(clients="{k1, k2}", ifaces="{}", rounds=1, timeouts=2, binds=2, dev="{}", props=True, norace=True, spec="Spec", temporal=None):
+    return """SPECIFICATION %s
 CONSTANTS
   Clients = %s
   Ifaces = %s
@@ -19,8 +19,8 @@ INVARIANTS %s %s
 %s
 VIEW View
 CHECK_DEADLOCK FALSE
-""" % (clients, ifaces, rounds, timeouts, binds, dev, SVC_INVS, "NoRace" if norace else "",
-       "PROPERTIES ShutdownEndsServing TimeoutEventually SecondBindRefused" if props else "")
+""" % (spec, clients, ifaces, rounds, timeouts, binds, dev, SVC_INVS, "NoRace" if norace else "",
+       ("PROPERTIES " + (temporal or "ShutdownEndsServing TimeoutEventually SecondBindRefused CancelEndsConnections CancelAloneDoesNotStop")) if props else "")
 
 
 def svc_gen_cfg(maxops, clients='{"k1", "k2"}', ifaces="{}", rounds=2, timeouts=2, binds=2, macro=False):
@@ -103,6 +103,12 @@ def svc_model(run, thorough):
                               "EndpointReleased", invariant="EndpointReleased", timeout=600)
     run.expect_counterexample("ServiceMC", svc_mc_cfg(dev='{"UnlockedRunning"}', props=False),
                               "NoRace", invariant="NoRace", timeout=600)
+    # a cancelled serving context must end the connections by itself: checked without the assumption that clients
+    # end their connections (SpecSvcOnly), and refuted when handlers do not see the context
+    run.model_check("ServiceMC", svc_mc_cfg(spec="SpecSvcOnly", temporal="CancelEndsConnections CancelAloneDoesNotStop"),
+                    "Service: a cancelled context alone ends every connection of the serving call (no client fairness)", timeout=900)
+    run.expect_counterexample("ServiceMC", svc_mc_cfg(spec="SpecSvcOnly", dev='{"HandlersIgnoreContext"}', temporal="CancelEndsConnections", norace=False),
+                              "CancelEndsConnections", timeout=600)
 
 
 def svc_schedules(run, thorough, ifaces="{}", clients='{"k1", "k2"}'):
@@ -119,11 +125,13 @@ def check_C14(run):
     sel = [x for x in s if '"timeout":true' not in x]
     seld = [x for x in deep if '"timeout":true' not in x]
     run.extra["schedule_space"] = {"exhaustive_len7_without_timeout": len(sel), "simulated_len12": len(seld)}
+    canc = [x for x in sel if '"op":"Cancel"' in x and '"op":"Deliver"' in x]
+    run.extra["schedule_space"]["with_context_cancellation_of_an_accepted_connection"] = len(canc)
     if not thorough:
-        sel = run.rng.sample(sel, min(len(sel), 700))
+        sel = run.rng.sample(sel, min(len(sel), 600)) + run.rng.sample(canc, min(len(canc), 200))
         seld = run.rng.sample(seld, min(len(seld), 200))
     else:
-        sel = run.rng.sample(sel, min(len(sel), 6000))
+        sel = run.rng.sample(sel, min(len(sel), 6000)) + run.rng.sample(canc, min(len(canc), 1500))
     nt = lambda c: any('"ev":"ShutdownEnd"' in l for l in c) and any('"ev":"AcceptConn"' in l for l in c)
     nt_l = lambda c: any('"ev":"ShutdownEnd"' in l for l in c) and any('"ev":"Connect"' in l for l in c)
     replay_validate(run, sel + seld, ["service"], "ServiceTrace", svc_trace_cfg(), "C14 gated schedules (Shutdown / draining / reuse)",
@@ -144,10 +152,9 @@ def check_C14(run):
     replay_validate(run, lsel, ["service", "-listen"], "ServiceTrace", svc_trace_cfg(real=True), "C14 schedules on the Listen path (real abstract unix listeners)",
                     nontrivial=nt_l, classify=None, shards=16)
     run.write_evidence("model_checking",
-        "schedules = environment histories of spec/ServiceGen.tla (Install, Serve, Connect, Deliver, Shutdown, End(close|abort|handler error), second Bind, gate release) enumerated exhaustively up to 7 actions (quick: seeded sample) plus simulated histories of 12 actions; the subset expressible with real listeners is also run through Service.Listen (its own copy of the accept loop); non-trivial = a connection was accepted and a Shutdown completed",
+        "schedules = environment histories of spec/ServiceGen.tla (Install, Serve, Connect, Deliver, Shutdown, End(close|abort|handler error), Cancel of the serving context, second Bind, gate release) enumerated exhaustively up to 7 actions (quick: seeded sample) plus simulated histories of 12 actions; the subset expressible with real listeners is also run through Service.Listen (its own copy of the accept loop); non-trivial = a connection was accepted and a Shutdown completed",
         exhaustive=False,
         assumptions=["placements of Shutdown finer than the harness's gates (Accept, SetDeadline, first Read) are explored in the model only",
-                     "context cancellation as a connection ending is exercised by C17, not here",
                      "controlled listener / connections never delay or alter I/O by themselves"])
 
 
